@@ -416,12 +416,19 @@ class Evaluator:
             if e.id in ("int", "str", "float", "bool", "list", "dict", "tuple", "set") and self.ctx.p.resolve_name(f.module, e.id) is None:
                 return {"int": int, "str": str, "float": float, "bool": bool, "list": list, "dict": dict, "tuple": tuple, "set": set}[e.id]
             try:
+                r0_ = self.ctx.p.resolve_name(f.module, e.id)
+                if r0_ is not None and r0_[0] == "const" and isinstance(r0_[2], (ast.Dict, ast.List, ast.Tuple)) \
+                        and any(isinstance(x, ast.Attribute) or (isinstance(x, ast.Name) and (self.ctx.p.resolve_name(r0_[1], x.id) or ("",))[0] in ("func", "class"))
+                                for x in ast.walk(r0_[2])):
+                    raise Unfoldable("table of callables")        # evaluated below, in its module
                 v = self.ctx.p.fold(f.module, e)
                 return self.int_override.get(v, v) if type(v) is int else v
             except Unfoldable:
                 r_ = self.ctx.p.resolve_name(f.module, e.id)
                 if r_ is not None and r_[0] == "class":
                     return ("class", r_[1])        # a class used as a value (passed on, called later)
+                if r_ is not None and r_[0] == "func":
+                    return ("func", r_[1])         # a function of the package used as a value (dispatch tables)
                 if r_ is not None and r_[0] == "const" and e.id not in r_[1].multi_assigned and e.id not in r_[1].globals_mutated:
                     # a module constant given by an expression (len(OTHER), A + str(B), ...): evaluate it in its module
                     m_ = r_[1]
@@ -434,6 +441,12 @@ class Evaluator:
             if k in env:
                 return env[k]
             base = self.expr(e.value, env, f, depth) if not isinstance(e.value, ast.Name) or e.value.id in env else None
+            if base is None and isinstance(e.value, ast.Name):
+                rc_ = self.ctx.p.resolve_name(f.module, e.value.id)
+                if rc_ is not None and rc_[0] == "class":
+                    m_ = rc_[1].find_method(e.attr)
+                    if m_ is not None and m_.is_static:
+                        return ("func", m_)            # Class.static_method used as a value
             if isinstance(base, AbsObj):
                 return self.getattr_obj(base, e.attr, depth)
             if isinstance(base, dict) and e.attr in base:
@@ -679,9 +692,10 @@ class Evaluator:
         fn = e.func
         args = [self.expr(a, env, f, depth) for a in e.args]
         kws = {k.arg: self.expr(k.value, env, f, depth) for k in e.keywords}
-        if isinstance(fn, ast.Name) and fn.id in env:
-            # a local variable that holds a callable of the package: a method of the object, a bound method, a lambda
-            v = env[fn.id]
+        if isinstance(fn, (ast.Subscript, ast.IfExp)) or (isinstance(fn, ast.Name) and fn.id in env):
+            # a local variable (or a table entry: TABLE[key](...)) that holds a callable of the package: a function, a method
+            # of the object, a bound method, a lambda
+            v = env[fn.id] if isinstance(fn, ast.Name) else self.expr(fn, env, f, depth)
             if isinstance(v, tuple) and len(v) == 2 and v[0] == "selfmethod":
                 selfenv = {k: x for k, x in env.items() if k.startswith("self.")}
                 try:
@@ -690,6 +704,8 @@ class Evaluator:
                     env.update(selfenv)
             if isinstance(v, tuple) and len(v) == 3 and v[0] == "bound":
                 return self.call(v[2], self._bind(v[2], args, kws, v[2].name), None, depth + 1, selfobj=(None if v[2].is_static else v[1]))
+            if isinstance(v, tuple) and len(v) == 2 and v[0] == "func":
+                return self.call(v[1], self._bind(v[1], args, kws, v[1].name), {}, depth + 1)
             if isinstance(v, Closure) and not kws:
                 lam = v.node
                 names = [a.arg for a in lam.args.args]
